@@ -4,7 +4,7 @@ CONSTANTS
   Depth = 3
   NRand = 0
   Seed = 1
-  Times = {0, 1, 2, 3, 4, 5, 7, 9, 13, 40}
+  Times = {0, 1, 2, 3, 4, 5, 7, 8, 9, 11, 13, 16, 40}
   EmitLines = FALSE
 INVARIANTS MetaStable OrderIrrelevant LaterWins SingleSame
 CHECK_DEADLOCK FALSE
